@@ -159,7 +159,15 @@ class State(object):
         return v
 
     def typeof(self, v):
-        return self.types.get(v.get_id()) if z3.is_expr(v) else None
+        if not z3.is_expr(v):
+            return None
+        t = self.types.get(v.get_id())
+        if t is None and z3.is_app(v) and v.num_args() > 0:
+            # an element taken back out of a literal tuple/list (x, y = (a, b)[1:]): same term after simplification
+            w = z3.simplify(v)
+            if w.get_id() != v.get_id():
+                t = self.types.get(w.get_id())
+        return t
 
 
 class Outcome(object):
